@@ -20,6 +20,9 @@ PALETTE = {
     # delimiter characters on both sides of a line terminator (inside triple-quoted strings the runs must not be added up)
     "mlqq": 'ab""\n"cd', "mlaa": "x'\n''y", "mlq1": 'a"\n"b', "mla1": "a'\n'b",
     # look-alikes of the reserved words that are ordinary values (only data_* / save_* are reserved as prefixes)
+    # strings that begin (or consist of) doubled delimiter characters: in CIF 1.1 'q2' stands as '''x''' - which is not a
+    # triple-quoted string there
+    "q2": "''x''", "dq2": '""y', "qq": "''", "q2sp": "''x y",
     "stopx": "stop_codon", "STOPx": "STOP_1", "loopx": "loop_x", "globalx": "global_x", "qmark": "?abc", "dotx": ".5a",
 }
 
